@@ -54,7 +54,7 @@ PROPS["C01"] = dict(
     ],
 )
 PROPS["C10"] = dict(
-    slices=["network", "tour_pos", "tour_mod", "path", "sched_guard", "admission", "train_formation_update", "update_tours", "remove_segment", "spawn_vehicle", "add_path", "override_reassign", "fit_reassign", "sched_ctor", "dummy_ops"],
+    slices=["network", "tour_pos", "tour_mod", "path", "transition", "sched_guard", "admission", "train_formation_update", "update_tours", "remove_segment", "spawn_vehicle", "add_path", "override_reassign", "fit_reassign", "sched_ctor", "dummy_ops"],
     witness_family="tour",
     level_text="clause 1 (every vehicle tour is a chronological path of connectable nodes from a start depot to an end depot with activities in between): same obligations as C01 on the Tour constructor and modifiers; cycle-membership clause: update_transitions_and_violation_fast keeps every type's rotation cycles well formed w.r.t. the new tours with exactly the new real vehicles of the type as members (under the stated caller-side precondition: no vehicle listed twice); formation, track and depot limits: the admission checks vehicle_replacement_in_train_formation and can_depot_spawn_vehicle_custom_usage are exact and update_train_formation applies them to exactly the moved nodes (same obligations as C02); sorted listings: update_tours keeps the vehicle and dummy listings sorted, duplicate-free and matching the maps; formation/tour agreement: the whole modifications under contract (remove_segment, spawn_vehicle_for_path, add_path_to_vehicle_tour, override_reassign) add / remove the vehicle in the formations of exactly the nodes its tour gains / loses; the base case: Schedule::empty satisfies the schedule invariants the modification slices take as precondition (ids, listings, usage table, formations, transitions) and from_tours re-establishes them after every spawn; that this holds for every reachable schedule (the dummy operations, and the re-establishment of every invariant by every modification) is NOT decided",
     level_note="same trusted base and caller-side assumptions as C01",
